@@ -1989,9 +1989,7 @@ dnsname_to_labels(u8 *const buf, size_t buf_len, off_t j,
 		j += 4;							\
 	} while (0)
 
-	/* 255 octets on the wire: at most 253 characters plus an optional
-	 * trailing dot */
-	if (name_len > 254 || (name_len == 254 && name[253] != '.')) return -2;
+	if (name_len > 255) return -2;
 
 	for (;;) {
 		const char *const start = name;
@@ -2078,6 +2076,12 @@ evdns_request_data_build(const struct evdns_base *base,
 	APPEND16(0);  /* no authority */
 	APPEND16(EDNS_ENABLED(base) ? 1 : 0); /* additional */
 
+	/* A name takes at most 255 octets on the wire: 253 characters plus an
+	 * optional trailing dot.  (Checked here, for what we ask; the names a
+	 * server port is given for its answers keep the looser historical
+	 * bound of dnsname_to_labels().) */
+	if (name_len > 254 || (name_len == 254 && name[253] != '.'))
+		return -2;
 	j = dnsname_to_labels(buf, buf_len, j, name, name_len, NULL);
 	if (j < 0) {
 		return (int)j;
